@@ -155,6 +155,20 @@ var scenarios = map[string]scenario{
 		}
 		return w
 	}},
+	// D17: transactions completed from the pool on a recovery request left stored pre-commits unverified.
+	"D17-precommit-after-pool-completion": {Prop: "C02", Key: "precommit-quorum", Run: func(keep bool) *sim.World {
+		s := sim.NewSolo(soloCfg(4, 1, 0), &ReplaySrc{}, 0, false, []*sim.Mon{sim.MonC02()}, keep)
+		s.N.Start() // height 2, primary 2, the node is backup 0
+		tx := s.W.NewTx(false)
+		p := s.Proposal(0, s.NextTs(), 1, tx)
+		s.N.Receive(p)
+		s.N.Receive(s.BadPreCommit(1, 0, 5)) // stored unverified: a transaction is missing
+		s.N.AddTx(tx)                        // the transaction reaches the pool by other means
+		s.Fire()                             // timeout -> recovery request -> missing transactions are looked up in the pool again
+		s.N.Receive(s.PreCommit(2, p))
+		s.N.Receive(s.PreCommit(3, p))
+		return s.W
+	}},
 	// D12: the primary counted an early response naming another proposal.
 	"D12-primary-early-response": {Prop: "C04", Key: "commit-without-prep-quorum", Run: func(keep bool) *sim.World {
 		s := sim.NewSolo(soloCfg(7, 5, -1), &ReplaySrc{}, 0, false, []*sim.Mon{sim.MonC04()}, keep)
